@@ -1108,6 +1108,87 @@ def two_blacklist_case(rec, rng):
         shutil.rmtree(root, ignore_errors=True)
 
 
+def linked_member_case(rec, rng):
+    """Population class: some members of the fileset are symbolic links into an archive outside of it (a
+    product tree linking to a pool). Selected entries are removed / copied as entries; the archive is an
+    unselected file tree that no operation touches."""
+    from typhon.files import FileSet, FileHandler
+    root = scratch_dir("c11l")
+    try:
+        tmpl = root + "/src/{year}{month}{day}_{hour}{minute}{second}-{end_hour}{end_minute}{end_second}.pkl"
+        fs = FileSet(path=tmpl, name="src", handler=FileHandler(reader=pkl_read, writer=pkl_write),
+                     worker_type="thread")
+        day = dt.datetime(2019, rng.randrange(1, 13), rng.randrange(1, 28))
+        n = rng.choice([4, 6, 8])
+        entries, archive = {}, {}
+        os.makedirs(root + "/archive")
+        for k in range(n):
+            t0 = day + D(minutes=41 * k)
+            fs[t0:t0 + D(minutes=10)] = {"id": k}
+            p = fs.get_filename((t0, t0 + D(minutes=10)))
+            entries[p] = k
+            if k % 2 == rng.randrange(2) or k == 0:
+                a = root + "/archive/pool_%02d.bin" % k
+                os.rename(p, a)
+                os.symlink(a, p)
+                archive[a] = k
+        case = {"kind": "linked-members", "n": n, "links": len(archive)}
+        rec.ev()
+        rec.count("linked_members.cases")
+        rec.count("linked_members.links", len(archive))
+        cut = day + D(minutes=41 * (n // 2))
+
+        def archive_ok(after):
+            for a, k in archive.items():
+                if not os.path.isfile(a) or os.path.islink(a) or raw_read_plain(a) != {"id": k}:
+                    rec.violation("tree-differs", case, {"after": after, "why": "a file outside the fileset "
+                                                         "(target of a linked member) was removed or changed",
+                                                         "file": os.path.relpath(a, root)})
+                    return False
+            return True
+        try:
+            got = sorted(d["id"] for d in fs.collect(day - D(days=1), day + D(days=2)))
+            if got != list(range(n)):
+                rec.violation("content-differs", case, {"after": "collect over linked members", "got": got})
+                return
+            fs.delete(dry_run=True, start=day - D(days=1), end=cut)
+            if any(not os.path.lexists(p) for p in entries) or not archive_ok("delete(dry_run=True)"):
+                rec.violation("tree-differs", case, {"after": "delete(dry_run=True)"})
+                return
+            fs.move(root + "/tgt/{year}/{doy}_{hour}{minute}{second}-{end_hour}{end_minute}{end_second}.pkl",
+                    copy=True, start=day - D(days=1), end=cut)
+            copied = sorted(q for q in listing(root) if "/tgt/" in q)
+            want_sel = sorted(k for p, k in entries.items() if k < n // 2)
+            if sorted(raw_read_plain(q)["id"] for q in copied) != want_sel or not archive_ok("copy"):
+                rec.violation("tree-differs", case, {"after": "copy of a selection with linked members",
+                                                     "copied": len(copied), "selected": len(want_sel)})
+                return
+            fs.delete(start=day - D(days=1), end=cut)
+            still = {p: k for p, k in entries.items() if os.path.lexists(p)}
+            if sorted(still.values()) != [k for k in range(n) if k >= n // 2] or not archive_ok("delete"):
+                rec.violation("tree-differs", case,
+                              {"after": "delete of a selection with linked members",
+                               "entries_left": sorted(still.values()),
+                               "expected_left": [k for k in range(n) if k >= n // 2]})
+                return
+            got = sorted(d["id"] for d in fs.collect(day - D(days=1), day + D(days=2)))
+            if got != [k for k in range(n) if k >= n // 2]:
+                rec.violation("content-differs", case, {"after": "collect after the delete", "got": got})
+                return
+            rec.nontriv(["linked-members", n, len(archive)], [n, sorted(archive.values())])
+        except Exception as exc:
+            rec.violation("operation-exception", case, {"op": "fileset with linked members",
+                                                        "exception": repr(exc),
+                                                        "trace": traceback.format_exc()[-1200:]})
+    finally:
+        shutil.rmtree(root, ignore_errors=True)
+
+
+def raw_read_plain(path):
+    with open(path, "rb") as fh:
+        return pickle.loads(fh.read())
+
+
 def run_shard(spec, rec):
     rng = rng_for(spec["seed"], "c11", spec["shard"])
     if spec["kind"] == "formats":
@@ -1117,6 +1198,7 @@ def run_shard(spec, rec):
         single_file_moves(rec, rng_for(spec["seed"], "c11-single", spec["shard"]))
         default_placeholder_case(rec, rng_for(spec["seed"], "c11-default", spec["shard"]))
         two_blacklist_case(rec, rng_for(spec["seed"], "c11-two-bl", spec["shard"]))
+        linked_member_case(rec, rng_for(spec["seed"], "c11-links", spec["shard"]))
     except Exception as exc:
         rec.inconc("harness error: %r %s" % (exc, traceback.format_exc()[-1200:]))
     for i in range(spec["n"]):
@@ -1135,6 +1217,9 @@ def replay(case, rec):
     elif case.get("kind") == "two-blacklist":
         for k in range(4):
             two_blacklist_case(rec, rng_for(k, "replay"))
+    elif case.get("kind") == "linked-members":
+        for k in range(4):
+            linked_member_case(rec, rng_for(k, "replay"))
     elif case.get("kind") == "default-placeholder":
         for k in range(4):
             default_placeholder_case(rec, rng_for(k, "replay"))
